@@ -219,7 +219,7 @@ PROPS = {
             "arbitrary files, symbol-name decoding, offset arithmetic over tables; PE and Mach-O layouts are not compared (no "
             "reference header available offline)."
         ),
-        rules=[(R_fm.r_structref_elf, Q), (R_fm.r_rectab, Q), (R_fm.r_cksum, Q), (R_fm.r_entry, Q), (R_fm.r_union, Q), (R_fm.r_tabwalk, Q), (R_fm.r_geom, Q), (R_fm.r_name_formats, Q), (R_fm.r_priv_formats, Q)],
+        rules=[(R_fm.r_structref_elf, Q), (R_fm.r_rectab, Q), (R_fm.r_cksum, Q), (R_fm.r_entry, Q), (R_fm.r_union, Q), (R_fm.r_purequery, Q), (R_fm.r_tabwalk, Q), (R_fm.r_geom, Q), (R_fm.r_name_formats, Q), (R_fm.r_priv_formats, Q)],
         level_text="partial: table = reference comparison for all 16 ELF layouts (with symbolic interpretation of the 64-bit edit scripts), CFG must-raise check of the two checksum comparisons, scope/attribute checks over every function of the six format modules; the tests open 8 sample files and never a corrupted record or a 64-bit note",
         level_note="Trusted: vstat.structmodel (StructDefine language read from its docstring, natural-alignment layout, the closed set of edit idioms: any other statement on `fields` makes the class undecided); ref/elf_layout.json generated from /usr/include/elf.h with gcc (generator committed); ref/records.json hand-written.",
         technique="table = vendored reference comparison with an interpreter of field-list edit scripts; must-raise on CFG; scope resolution",
@@ -255,7 +255,7 @@ PROPS = {
             "attribute its constructor stores; (R-GEOM/R-TABWALK) segment tables are located and walked with the geometry the "
             "file declares. Does NOT decide byte equality of the whole image, relocation slots, page arithmetic, instruction fetch."
         ),
-        rules=[(R_fm.r_segimg, Q), (R_fm.r_loaderpc, Q), (R_fm.r_entry, Q), (R_fm.r_geom, Q), (R_fm.r_tabwalk, Q)],
+        rules=[(R_fm.r_segimg, Q), (R_fm.r_loaderpc, Q), (R_fm.r_entry, Q), (R_fm.r_purequery, Q), (R_fm.r_geom, Q), (R_fm.r_tabwalk, Q)],
         level_text="partial: must-use (def-use) checks on the three loadsegment implementations and all 12 OS loaders; the loader tests check entry points of three samples and never the zero-filled tail of a segment",
         level_note="Trusted: attribute names identify the file-size / memory-size fields (p_filesz/p_memsz, SizeOfRawData/VirtualSize, filesize/vmsize); one-level helper resolution (self.readsegment).",
         technique="must-use / must-flow (def-use) rules over the AST of the loaders",
